@@ -31,6 +31,7 @@ func init() {
 			{"C04.upload-body-fresh", "an index upload that is retried sends the whole index again", 1, func(c *Ctx) {
 				retryBodyFresh(c, func(k string) bool { return strings.Contains(k, "Index") })
 			}},
+			{"C04.exact-reads", "fixed-size fields are read completely (no direct Read in the decoding primitives; byte counts used)", 1, func(c *Ctx) { c.exactReads() }},
 			{"C04.errors-not-dropped", "no error of the operations this property depends on is dropped", 1, func(c *Ctx) { c.errorsNotDropped("C04") }},
 		},
 	})
